@@ -155,28 +155,42 @@ def literal_int(n):
     raise TranslateError("expected an integer literal, got %s" % n.get("kind"))
 
 
-def fptype_test(n, enum):
-    """`_fptype != FPType::none && _fptype != FPType::X` -> 'dmp' (X = diffusion_only) | 'dif' (X = damping_only)"""
+BOOLENV = {}     # local `const bool` flags of the constructor: name -> defining expression
+
+
+def fp_cond(n, enum, val):
+    """truth value of a condition over `_fptype` (==, !=, &&, ||, !, local const bool flags) when _fptype = val"""
     n = unwrap(n)
-    if n.get("kind") != "BinaryOperator" or n["opcode"] != "&&":
-        raise TranslateError("if-condition is not a conjunction")
-    got = []
-    for c in kids(n):
-        c = unwrap(c)
-        if c.get("kind") != "BinaryOperator" or c["opcode"] != "!=":
-            raise TranslateError("if-condition part is not `!=`")
-        l, r = [unwrap(x) for x in kids(c)]
+    k = n.get("kind")
+    if k == "BinaryOperator" and n["opcode"] in ("&&", "||"):
+        a, b = [fp_cond(c, enum, val) for c in kids(n)]
+        return (a and b) if n["opcode"] == "&&" else (a or b)
+    if k == "UnaryOperator" and n["opcode"] == "!":
+        return not fp_cond(kids(n)[0], enum, val)
+    if k == "BinaryOperator" and n["opcode"] in ("!=", "=="):
+        l, r = [unwrap(x) for x in kids(n)]
+        if r.get("kind") == "MemberExpr":
+            l, r = r, l
         if l.get("kind") != "MemberExpr" or l.get("name") != "_fptype" or r.get("kind") != "DeclRefExpr":
-            raise TranslateError("if-condition is not `_fptype != FPType::X`")
+            raise TranslateError("comparison is not `_fptype ==/!= FPType::X`")
         nm = r["referencedDecl"]["name"]
         if nm not in enum:
             raise TranslateError("unknown FPType constant %s" % nm)
-        got.append(nm)
-    if sorted(got) == ["diffusion_only", "none"]:
+        return (val == enum[nm]) if n["opcode"] == "==" else (val != enum[nm])
+    if k == "DeclRefExpr" and n["referencedDecl"]["name"] in BOOLENV:
+        return fp_cond(BOOLENV[n["referencedDecl"]["name"]], enum, val)
+    raise TranslateError("unrecognised FPType condition (%s)" % k)
+
+
+def fptype_test(n, enum):
+    """classify a condition by its truth table over the four FPType values:
+    true exactly for damping_only and full -> 'dmp'; exactly for diffusion_only and full -> 'dif'"""
+    tt = {nm: fp_cond(n, enum, v) for nm, v in enum.items()}
+    if tt == {"none": False, "damping_only": True, "diffusion_only": False, "full": True}:
         return "dmp"
-    if sorted(got) == ["damping_only", "none"]:
+    if tt == {"none": False, "damping_only": False, "diffusion_only": True, "full": True}:
         return "dif"
-    raise TranslateError("unrecognised FPType test %s" % got)
+    raise TranslateError("FPType test with truth table %s is neither the damping nor the diffusion test" % tt)
 
 
 def translate():
@@ -231,6 +245,8 @@ def translate():
                 elif nm in ("e1_2d", "e1_6d", "e1_d2"):
                     consts[nm] = to_ir2(kids(v)[0], env, member_ok)
                     env[nm] = ("var", nm)
+                elif (v.get("type") or {}).get("qualType", "").replace("const ", "").strip() == "bool" and kids(v):
+                    BOOLENV[nm] = kids(v)[0]          # a flag such as `const bool damping = ...`; checked where it is used
                 else:
                     raise TranslateError("unexpected local %s" % nm)
         elif k == "SwitchStmt":
